@@ -18,12 +18,15 @@ def per_channel(s):
     """list (one record per column) of the seven per-channel metadata views."""
     n = len(s.channels)
     out = []
-    rng_ = s.range()
-    res = s.resolution()
-    at = s.amplification_type()
-    ag = s.amplifier_gain()
-    dv = s.detector_voltage()
-    lb = s.channel_labels()
+    # accessors are called with explicit positions: with channels=None they go through the channel NAMES, which is
+    # ambiguous (first match) for a sample holding the same channel twice
+    ix = list(range(n))
+    rng_ = s.range(ix)
+    res = s.resolution(ix)
+    at = s.amplification_type(ix)
+    ag = s.amplifier_gain(ix)
+    dv = s.detector_voltage(ix)
+    lb = s.channel_labels(ix)
     for i in range(n):
         r = rng_[i]
         out.append((s.channels[i], None if r is None else [float(r[0]), float(r[1])], res[i], at[i], ag[i], dv[i], lb[i]))
@@ -33,13 +36,14 @@ def per_channel(s):
 def meta(s, with_range=True):
     d = {}
     d['channels'] = tuple(s.channels)
+    ix = list(range(len(s.channels)))      # by position (names may repeat after indexing with repeats)
     if with_range:
-        d['range'] = [None if r is None else [float(x) for x in r] for r in s.range()]
-    d['resolution'] = list(s.resolution())
-    d['amplification_type'] = list(s.amplification_type())
-    d['amplifier_gain'] = list(s.amplifier_gain())
-    d['detector_voltage'] = list(s.detector_voltage())
-    d['channel_labels'] = list(s.channel_labels())
+        d['range'] = [None if r is None else [float(x) for x in r] for r in s.range(ix)]
+    d['resolution'] = list(s.resolution(ix))
+    d['amplification_type'] = list(s.amplification_type(ix))
+    d['amplifier_gain'] = list(s.amplifier_gain(ix))
+    d['detector_voltage'] = list(s.detector_voltage(ix))
+    d['channel_labels'] = list(s.channel_labels(ix))
     d['text'] = dict(s.text)
     d['analysis'] = dict(s.analysis)
     for a in SCALAR_ATTRS:
